@@ -93,6 +93,10 @@ def materialise(tree, root):
 
 
 def lib_kwargs(opts, feats):
+    if opts.get("lib_only"):
+        kw = lib_kwargs(dict(opts, lib_only=False), feats)
+        kw["preserve_suffix_v6"] = opts["B6x"]
+        return kw
     B = opts["B4"] if opts.get("B4") is not None else 0
     return dict(
         anon_pwd="pwd" in feats, anon_ip="ip" in feats, salt=opts["salt"],
@@ -204,6 +208,10 @@ def fault_sets(case, rng, visible):
 def _tree(ctx, case, nc, wd):
     rng = random.Random(case["seed"])
     opts = make_opts(rng)
+    if not case["cli"] and rng.random() < 0.5:
+        # the library entry points take separate host-bit counts for the two families
+        opts["lib_only"] = True
+        opts["B6x"] = rng.choice([0, 16, 64, 96, 127])
     feats = case["feats"]
     tree = gen_tree(rng, opts, case["nfiles"])
     visible = [f for f in tree["files"] if not f["hidden"]]
